@@ -50,6 +50,7 @@ TGEN_DEFAULT = dict(
     p_local_int=0.15,   # a local array is of integer type (class py-local-int-array)
     clamp_subscripts=True,   # subscripts may be min(max(e, lo), hi)
     int_calls=True,     # ABS / MIN / MAX inside integer expressions
+    p_nary=0.35,        # a MIN / MAX call has 3 or 4 arguments
     p_pow=0.15,         # ** with exponent 2 or 3
     p_while=0.1,
     p_local_arrays=0.5,
@@ -270,7 +271,12 @@ class TGen:
             return BIN('div', self.iexpr(d - 1), den)
         r = rng.random()
         if r < cfg['p_mod']:
-            return CALL('mod', self.iexpr(d - 1), ilit(rng.choice((2, 3, 5, 7))))
+            r2 = rng.random()
+            v = self.iexpr(0)
+            posv = BIN('add', BIN('mul', v, v), I(rng.randint(1, 3)))            # strictly positive
+            second = ilit(rng.choice((2, 3, 5, 7))) if r2 < 0.5 else BIN('mul', I(rng.choice((2, 3))), posv) if r2 < 0.75 \
+                else BIN('div', BIN('add', posv, I(12)), I(rng.choice((2, 3)))) if r2 < 0.9 else posv
+            return CALL('mod', self.iexpr(d - 1), second)
         r = rng.random()
         if r < cfg['p_int']:
             return CALL('int', self.rexpr(d - 1))
@@ -291,7 +297,7 @@ class TGen:
         if r < 0.7:
             return CALL('abs', self.iexpr(d - 1))
         if r < 0.85:
-            return CALL(rng.choice(('min', 'max')), self.iexpr(d - 1), self.iexpr(d - 1))
+            return CALL(rng.choice(('min', 'max')), *[self.iexpr(d - 1) for _ in range(self.nargs())])
         return BIN('sub', self.iexpr(d - 1), BIN('sub', self.iexpr(d - 1), self.iexpr(d - 1)))
 
     def rexpr(self, d):
@@ -321,10 +327,16 @@ class TGen:
         if r < 0.83:
             return CALL('abs', self.rexpr(d - 1))
         if r < 0.93:
-            return CALL(rng.choice(('min', 'max')), self.rexpr(d - 1), self.rexpr(d - 1))
+            # MIN / MAX are variadic; arguments of mixed type promote to real
+            return CALL(rng.choice(('min', 'max')), *[self.rexpr(d - 1) if k == 0 or rng.random() < 0.7 else self.iexpr(d - 1)
+                                                      for k in range(self.nargs())])
         if not self.loopvars and self.rng.random() < self.cfg['p_pow'] * 3:
             return BIN('pow', CALL('min', CALL('max', self.rexpr(d - 1), rlit(-4)), rlit(4)), I(2))
         return BIN('sub', self.rexpr(d - 1), BIN('add', self.rexpr(d - 1), self.rexpr(d - 1)))
+
+    def nargs(self):
+        """number of arguments of a MIN / MAX call: 2, or 3-4 with probability p_nary"""
+        return self.rng.choice((3, 3, 4)) if self.rng.random() < self.cfg['p_nary'] else 2
 
     def lexpr(self, d):
         rng = self.rng
@@ -429,7 +441,7 @@ class TGen:
         hi = V(ext) if isinstance(ext, str) else I(ext)
         lo, step = I(1), NONE
         if rng.random() < cfg['p_step']:
-            st = rng.choice((2, 3, -1, -2, 2))
+            st = rng.choice((2, 3, -1, -1, -2, -3))
             step = ilit(st)
             if st < 0:
                 lo, hi = hi, lo
